@@ -43,9 +43,13 @@ M18 = {
     "loader-default-diverges": (sub(CONF, "\tk, err := NewDefaultKoanf(ctx)\n\tif err != nil {\n\t\treturn nil, nil, err\n\t}\n\tvar rootConfig",
                                     "\tk, err := NewDefaultKoanf(ctx)\n\tif err != nil {\n\t\treturn nil, nil, err\n\t}\n\t_ = k.Set(\"force-file-write\", true)\n\tvar rootConfig"), 0),
     "env-leaks-into-written-defaults": (sub(INIT, "\trootConf.Packages = map", "\tif v := os.Getenv(\"MOCKERY_LOG_LEVEL\"); v != \"\" {\n\t\trootConf.LogLevel = &v\n\t}\n\trootConf.Packages = map"), 1),
-    # legitimate refactor: explicit existence check instead of O_EXCL -- must NOT be flagged
-    "refactor-stat-check": (sub(INIT, "\tf, err := outFile.OpenFile(os.O_RDWR | os.O_CREATE | os.O_EXCL)\n",
-                                "\tif _, serr := os.Lstat(filename); serr == nil {\n\t\tlog.Error().Msg(\"config file already exists\")\n\t\tos.Exit(1)\n\t}\n\tf, err := outFile.OpenFile(os.O_RDWR | os.O_CREATE | os.O_TRUNC)\n"), 0),
+    # explicit Lstat check followed by a non-exclusive create: sequentially equivalent, but two concurrent
+    # inits both succeed (check-then-act race) -- caught only by the concurrent histories
+    "racy-lstat-check": (sub(INIT, "\tf, err := outFile.OpenFile(os.O_RDWR | os.O_CREATE | os.O_EXCL)\n",
+                                "\tif _, serr := os.Lstat(filename); serr == nil {\n\t\tlog.Error().Msg(\"config file already exists\")\n\t\tos.Exit(1)\n\t}\n\tf, err := outFile.OpenFile(os.O_RDWR | os.O_CREATE | os.O_TRUNC)\n"), 1),
+    # legitimate refactor: a friendlier message from an Lstat check, the exclusive create kept -- must NOT be flagged
+    "refactor-lstat-message-keep-excl": (sub(INIT, "\tf, err := outFile.OpenFile(os.O_RDWR | os.O_CREATE | os.O_EXCL)\n",
+                                "\tif _, serr := os.Lstat(filename); serr == nil {\n\t\tlog.Error().Msg(\"config file already exists\")\n\t\tos.Exit(1)\n\t}\n\tf, err := outFile.OpenFile(os.O_RDWR | os.O_CREATE | os.O_EXCL)\n"), 0),
     "refactor-mkdirall": (multi(sub(INIT, "\tf, err := outFile.OpenFile(os.O_RDWR | os.O_CREATE | os.O_EXCL)\n",
                                     "\t_ = os.MkdirAll(filepath.Dir(filename), 0o755)\n\tf, err := outFile.OpenFile(os.O_RDWR | os.O_CREATE | os.O_EXCL)\n"),
                                 sub(INIT, '\t"os"\n', '\t"os"\n\t"path/filepath"\n')), 0),
